@@ -453,6 +453,18 @@ func runC18(c *Ctx) {
 				if cal == closeFn {
 					return true
 				}
+				// a deferred closure every normal (non-panicking) path of which closes: the only
+				// way round the call is a path that panics again (defect D52: no finalising
+				// while the handler's panic unwinds)
+				if cal.Parent() == fn {
+					isClose := func(in ssa.Instruction) bool {
+						ci, ok := in.(ssa.CallInstruction)
+						return ok && ci.Common().StaticCallee() == closeFn
+					}
+					if esc, _ := (PathQuery{Target: IsReturn, Avoid: isClose}).Search(cal, nil); !esc {
+						return true
+					}
+				}
 			}
 			return false
 		}
